@@ -43,6 +43,69 @@ class Lin:
         return " + ".join(parts).replace("+ -", "- ")
 
 
+def maxbits(fn, o, depth=0):
+    """least k such that o is known to lie in [0, 2^k), or None (constants, zero-extensions, masks, shifts, sums and products with room)"""
+    if is_const(o):
+        c = const_val(o)
+        return c.bit_length() if c is not None and c >= 0 else None
+    d = fn.defn(o)
+    if d is None or d.is_param or depth > 8:
+        return None
+    w = fn.mod.int_bits(d.ty) or 64
+    if d.op == "zext":
+        src = fn.defn(d.ops[0])
+        sw = (fn.mod.int_bits(src.ty) if src is not None else None) or w
+        inner = maxbits(fn, d.ops[0], depth + 1)
+        return min(sw, inner) if inner is not None else sw
+    if d.op == "trunc":
+        inner = maxbits(fn, d.ops[0], depth + 1)
+        return min(w, inner) if inner is not None else w
+    if d.op == "and":
+        ks = [k for k in (maxbits(fn, x, depth + 1) for x in d.ops) if k is not None]
+        return min(ks) if ks else None
+    if d.op in ("lshr", "udiv"):
+        return maxbits(fn, d.ops[0], depth + 1)
+    if d.op == "urem":
+        return maxbits(fn, d.ops[1], depth + 1) or maxbits(fn, d.ops[0], depth + 1)
+    if d.op in ("add", "or", "xor"):
+        ka, kb = maxbits(fn, d.ops[0], depth + 1), maxbits(fn, d.ops[1], depth + 1)
+        if ka is None or kb is None:
+            return None
+        k = max(ka, kb) + (1 if d.op == "add" else 0)
+        return k if k < w else None
+    if d.op == "mul":
+        ka, kb = maxbits(fn, d.ops[0], depth + 1), maxbits(fn, d.ops[1], depth + 1)
+        if ka is None or kb is None or ka + kb >= w:
+            return None
+        return ka + kb
+    if d.op in ("phi", "select"):
+        vals = [v for v, _ in d.incoming] if d.op == "phi" else d.ops[1:]
+        ks = [maxbits(fn, v, depth + 1) if v != ("v", d.id) else 0 for v in vals]
+        return max(ks) if ks and all(k is not None for k in ks) else None
+    if d.op == "load" and w <= 16:
+        return w
+    return None
+
+
+def narrowed_difference(fn, o):
+    """o is `(narrow type) (a - b - c ...)` with a known to fit the narrow type and b, c, ... known non-negative: the operand of the narrowing,
+    else None.  Wherever the difference is shown not to be negative (a guard `a > b + c` at the site) it lies in [0, a] and the narrowing
+    changes nothing - the caller is responsible for that guard."""
+    d = fn.defn(o)
+    if d is None or d.is_param or d.op != "trunc":
+        return None
+    tw = fn.mod.int_bits(d.ty) or 64
+    x = d.ops[0]
+    for _ in range(8):
+        dx = fn.defn(x)
+        if dx is not None and not dx.is_param and dx.op == "sub" and maxbits(fn, dx.ops[1]) is not None:
+            x = dx.ops[0]
+            continue
+        break
+    k = maxbits(fn, x)
+    return d.ops[0] if (k is not None and k <= tw and x != d.ops[0]) else None
+
+
 def linform(fn, o, symf, depth=0):
     """symf(operand) -> symbol name or None.  Returns Lin or None."""
     if is_const(o):
@@ -53,8 +116,18 @@ def linform(fn, o, symf, depth=0):
     d = fn.defn(o)
     if d is None or d.is_param or depth > 24:
         return None
-    if d.op in ("zext", "sext", "trunc", "bitcast"):
+    if d.op in ("zext", "sext", "bitcast"):
         return linform(fn, d.ops[0], symf, depth + 1)
+    if d.op == "trunc":
+        # (uint8_t) (a + b) is a + b only while the sum fits eight bits: a narrowing is looked through only where the operand is known to fit
+        tw = fn.mod.int_bits(d.ty) or 64
+        k = maxbits(fn, d.ops[0])
+        if k is not None and k <= tw:
+            return linform(fn, d.ops[0], symf, depth + 1)
+        inner = fn.defn(d.ops[0])
+        if inner is not None and not inner.is_param and inner.op in ("add", "sub", "mul", "shl"):
+            return None                 # arithmetic that may not fit: the truncated value is not a linear form of its operands
+        return None
     if d.op in ("add", "sub"):
         a = linform(fn, d.ops[0], symf, depth + 1)
         b = linform(fn, d.ops[1], symf, depth + 1)
